@@ -8,6 +8,8 @@ name=$1
 d=/verif/seeded/$name
 wt=/tmp/confirm_$name
 export GOFLAGS=-mod=mod GOPROXY=off GOSUMDB=off GOTOOLCHAIN=local
+# the suite uses fixed ports (8475, 7070, ...): run it in a private network namespace so that concurrent runs do not collide
+gt() { unshare -n sh -c "ip link set lo up; exec go test $*"; }
 git -C /repo worktree remove --force $wt 2>/dev/null
 git -C /repo worktree add -q --detach $wt HEAD || exit 2
 cd $wt
@@ -17,10 +19,10 @@ if ! git apply $d/patch.diff 2>>$d/confirm.log; then res "APPLY_FAILED"; cd /; g
 go build ./... >>$d/confirm.log 2>&1 && res "BUILD_OK" || res "BUILD_FAILED"
 suite_ok=1
 for r in 1 2; do
-  go test -vet=off -count=1 -timeout 25m ./... > /tmp/confirm_$name.suite 2>&1
+  gt -vet=off -count=1 -timeout 25m ./... > /tmp/confirm_$name.suite 2>&1
   if grep -q '^FAIL' /tmp/confirm_$name.suite; then
     # retry once failed packages (timing flakiness under load)
-    go test -vet=off -count=1 -timeout 25m ./... > /tmp/confirm_$name.suite 2>&1
+    gt -vet=off -count=1 -timeout 25m ./... > /tmp/confirm_$name.suite 2>&1
     if grep -q '^FAIL' /tmp/confirm_$name.suite; then suite_ok=0; grep -E '^(--- FAIL|FAIL)' /tmp/confirm_$name.suite >> $d/confirm.log; fi
   fi
 done
@@ -29,10 +31,10 @@ done
 (cd $d/demo && find . -type f) | while read f; do mkdir -p $(dirname $f); cp $d/demo/$f $f; done
 pk=$(cd $d/demo && find . -name '*_test.go' -printf '%h\n' | sort -u | head -1)
 run=$(grep -ho 'func Test[A-Za-z0-9_]*' $(find $d/demo -name '*_test.go') | sed 's/func //' | paste -sd'|')
-go test -vet=off -count=1 -timeout 10m -run "^($run)\$" $pk/ > /tmp/confirm_$name.demo1 2>&1
+gt -vet=off -count=1 -timeout 10m -run "'^($run)\$'" $pk/ > /tmp/confirm_$name.demo1 2>&1
 if grep -q '^--- FAIL\|^FAIL\|panic:' /tmp/confirm_$name.demo1; then res "DEMO_FAILS_WITH_PATCH"; else res "DEMO_PASSES_WITH_PATCH(!)"; fi
 git apply -R $d/patch.diff
-go test -vet=off -count=1 -timeout 10m -run "^($run)\$" $pk/ > /tmp/confirm_$name.demo2 2>&1
+gt -vet=off -count=1 -timeout 10m -run "'^($run)\$'" $pk/ > /tmp/confirm_$name.demo2 2>&1
 if grep -q '^--- FAIL\|^FAIL\|panic:' /tmp/confirm_$name.demo2; then res "DEMO_FAILS_WITHOUT_PATCH(!)"; tail -20 /tmp/confirm_$name.demo2 >> $d/confirm.log; else res "DEMO_PASSES_WITHOUT_PATCH"; fi
 cd /
 git -C /repo worktree remove --force $wt
